@@ -500,6 +500,23 @@ func runC03(c *Ctx) {
 			}
 		}
 	}
+	// the checksum covers the prefix: a payload summed for one prefix is a corrupted string behind every other prefix
+	// (the two cosets differ by a fixed syndrome), for both readers and on every network
+	for _, written := range prefixes {
+		for _, summed := range prefixes {
+			if written == summed {
+				continue
+			}
+			for _, typ := range []byte{0, 1} {
+				syms := refTo5(append([]byte{typ << 3}, randBytes(r, 20)...), 0)
+				s := written + ":" + refCashString(summed, syms)
+				decodeCash(c, s)
+				for net := 1; net <= len(nets); net++ {
+					decode(c, s, net)
+				}
+			}
+		}
+	}
 	perCombo := c.Pick(14, 400)
 	for _, pfx := range prefixes {
 		for _, hl := range hashLens {
